@@ -848,6 +848,9 @@ def c08(tier, seed):
             jj = rng.randrange(1, 6)
             inv = [op("incvar", var="i"), iff("i", "ge", jj, [op(rng.choice(["fatalf", "errorf", "panic"]), site=2)])]
         body = [op("setvar", var=v, val="0") for v in ("n", "f", "e", "i")]
+        if i % 9 == 5:
+            # the test case has already failed (non-fatally) when Repeat is entered, for some of its inputs: not one action may run then
+            body += [draw(g("Uint8"), "pre", "pre"), iff("pre", "mod2", 0, [op("errorf", text="before the machine")])]
         rep = {"op": "repeat", "actions": actions}
         if i % 5 == 4 and len(chosen) <= 3:
             # the machine as a struct: its actions are collected by rapid.StateMachineActions (methods ActA, ActB(*T), ActC(TB); Check is the invariant)
